@@ -23,6 +23,7 @@ class SpecCtx:
         self.guards = []
         self.frame_declared = False
         self.result_maker = None
+        self.result_expr = None
         self.notes = {}
 
     def guarded(self, f):
@@ -33,7 +34,7 @@ class SpecCtx:
 
 class SpecRT:
     SPEC_FORMS = {'old', 'forall', 'exists', 'requires', 'ensures', 'raises', 'modifies', 'modifies_all',
-                  'modifies_cattr', 'returns_abs', 'label', 'modifies_ghost', 'modifies_dict'}
+                  'modifies_cattr', 'returns_abs', 'label', 'modifies_ghost', 'modifies_dict', 'result_is'}
     SPEC_BUILTINS = {'implies', 'iff', 'floor_of', 'ceil_of', 'pow10', 'is_int', 'is_none', 'is_instance', 'fresh',
                      'allocated', 'and_', 'or_', 'not_', 'ite', 'is_dfmt', 'is_dfmt_g', 'str_denotes',
                      'kind_of', 'cls', 'is_val', 'same_ref', 'truthy', 'str_of_int', 'any_int', 'any_str',
@@ -44,7 +45,7 @@ class SpecRT:
                      'mem', 'length', 'msg_names', 'exact_arith', 'instance_is', 'V_of_int', 'field_updated', 'field_unchanged',
                      'dhas', 'dval', 'distinct_refs', 'is_digit_string', 'int_accepts', 'norm_any', 'dict_is',
                      'old_dict', 'dict_same', 'any_mem', 'any_of', 'any_is_int', 'any_int_value', 'str_is_int_of',
-                     'any_is_none', 'any_eq', 'any_same', 'returned_class', 'is_the_election', 'dict_int_values_between', 'int_value_of'}
+                     'any_is_none', 'any_eq', 'any_same', 'returned_class', 'is_the_election', 'dict_int_values_between', 'int_value_of', 'mem_opt', 'length_opt', 'slack0'}
 
     def init(self):
         self.ctx = None
@@ -154,6 +155,11 @@ class SpecRT:
                 ov = self.spec_eval(e.args[0], st, fr)
                 for fa in e.args[1:]:
                     ctx.modifies.append(('all', ov.info.qualname, ast.literal_eval(fa)))
+            return ex.ok(NONE, st)
+        if name == 'result_is':
+            # the result is this expression of the pre-state (no fresh symbol at call sites: usable inside comprehensions)
+            if ctx is not None and ex.spec_mode == 'pre':
+                ctx.result_expr = self.spec_eval(e.args[0], st, fr)
             return ex.ok(NONE, st)
         if name == 'modifies_dict':
             if ctx is not None and ex.spec_mode == 'pre':
@@ -329,6 +335,8 @@ class SpecRT:
             return k
         if k == 'any_rule':
             return 'any_rule'
+        if k == 'list0':
+            return 'list0'
         v = self.spec_name(k, None, None)
         if isinstance(v, SClass):
             return 'ref:' + v.info.qualname
@@ -345,6 +353,8 @@ class SpecRT:
             return self.fresh_abs(k[4:], st, base, distinct=True)
         if k == 'dict':
             return self.new_dict(st, symbolic=True, base=base)
+        if k == 'list0':
+            return STuple([])
         v = self.fresh_of_kind(k, base)
         if isinstance(v, SRef):
             st.assume(v.t >= 1)
@@ -437,7 +447,7 @@ class SpecRT:
         na = fresh_int('alloc')
         st.assume(na >= pre.alloc)
         st.alloc = na
-        result = self.make_result(con, st, base='r_' + info.name.strip('_'))
+        result = ctx.result_expr if ctx.result_expr is not None else self.make_result(con, st, base='r_' + info.name.strip('_'))
         ctx2 = self.run_spec(con, env, pre, st, result, 'post')
         for f, lab, props in ctx2.ensures:
             st.assume(f)
